@@ -105,8 +105,16 @@ func minInt(a, b int) int {
 }
 
 // c04Params builds a parameter map with every bindable kind (right and wrong).
-func c04Params(rg *mon.Rng) map[string]interface{} {
-	vals := []interface{}{
+func c04Vals() []interface{} {
+	return []interface{}{
+		map[string]interface{}{"duration": "1\xc2"}, map[string]interface{}{"duration": "1h2\xc2"}, map[string]interface{}{"duration": "\xc2"}, map[string]interface{}{"duration": "1\xb5"}, map[string]interface{}{"duration": "5\xc2\xb5"},
+		map[string]interface{}{"duration": "1\xff"}, map[string]interface{}{"duration": "99999999999999999999999h"}, map[string]interface{}{"duration": "1h\x00"}, map[string]interface{}{"duration": ""}, map[string]interface{}{"duration": "-"},
+		map[string]interface{}{"duration": "7"}, map[string]interface{}{"duration": "h"}, map[string]interface{}{"duration": "1hh"}, map[string]interface{}{"duration": "\uff11s"}, map[string]interface{}{"duration": "1 s"}, map[string]interface{}{"duration": "1µ"},
+		map[string]interface{}{"duration": "1\xe2\x82"}, map[string]interface{}{"duration": "1m\xf0\x9f"}, map[string]interface{}{"duration": "--1s"}, map[string]interface{}{"duration": "+1s"}, map[string]interface{}{"duration": "1e3s"},
+		map[string]interface{}{"identifier": "a\xff"}, map[string]interface{}{"identifier": ""}, map[string]interface{}{"identifier": "\x00"}, map[string]interface{}{"string": "\xc2"}, map[string]interface{}{"regex": "\xff("}, map[string]interface{}{"regex": ""},
+		map[string]interface{}{"regex": "a{1001}"}, map[string]interface{}{"regex": "(?P<n>"}, "\xc2", "\xe2\x82", 9223372036854775808.0, -9223372036854775808.0, 18446744073709551616.0, 5e-324, json.Number("-0"), json.Number("0x10"), json.Number("1_000"),
+		json.Number("18446744073709551616"), json.Number("-9223372036854775809"), json.Number(" 1"), json.Number("1."), json.Number(".5"), json.Number("+5"),
+
 		"str", "it's; DROP DATABASE x --", "select", "", "a\nb", "\x00",
 		1.5, math.NaN(), math.Inf(1), math.Inf(-1), 1e300, -0.0,
 		int64(7), int64(math.MaxInt64), int64(math.MinInt64), int64(0),
@@ -121,6 +129,10 @@ func c04Params(rg *mon.Rng) map[string]interface{} {
 		map[string]interface{}{}, map[string]interface{}{"string": "a", "int": int64(1)}, map[string]interface{}{"unknown": "x"},
 		[]interface{}{1}, nil, int32(5), uint64(7), struct{}{}, []byte("x"), time.Second,
 	}
+}
+
+func c04Params(rg *mon.Rng) map[string]interface{} {
+	vals := c04Vals()
 	names := []string{"p", "q", "p q", "1", "str", "re", "id", "dur", "num", "int", "bool", "bad", ""}
 	m := map[string]interface{}{}
 	for _, n := range names {
@@ -275,6 +287,27 @@ func c04Case(seed int64, label string, idx int) (string, map[string]interface{})
 			params = c04Params(rg)
 		}
 		return text, params
+	case "tmpl":
+		// a generated statement whose name / literal tokens are placeholders:
+		// every bindable and unbindable value lands where the grammar reads a
+		// name, a string, a regex, a count, a number or a duration
+		gc := genCase(seed, "c04.tmpl", idx, -1, -1, gen.Opts{Odd: idx%3 == 0, MaxDepth: 2}, "spaced")
+		toks := append([]gen.Tok(nil), gc.G.B.Toks...)
+		vals := c04Vals()
+		params := map[string]interface{}{}
+		k := 0
+		for i := range toks {
+			if slotKind(toks[i]) != "" && rg.P(0.35) {
+				name := fmt.Sprintf("p%d", k)
+				k++
+				toks[i].Text = "$" + name
+				if rg.P(0.9) {
+					params[name] = vals[rg.Intn(len(vals))]
+				}
+			}
+		}
+		text, _ := gen.Render(toks, gen.Layout{Spaced: true})
+		return text, params
 	case "bytes":
 		n := rg.Intn(200)
 		bs := make([]byte, n)
@@ -381,12 +414,12 @@ func c04Worker(args []string) int {
 		_, _ = jf.WriteAt(b, 0)
 	}
 	thorough := tier == "thorough"
-	counts := map[string]int{"mut": 200000, "bytes": 50000, "soup": 50000}
+	counts := map[string]int{"mut": 200000, "bytes": 50000, "soup": 50000, "tmpl": 60000}
 	if thorough {
-		counts = map[string]int{"mut": 7000000, "bytes": 1500000, "soup": 1500000}
+		counts = map[string]int{"mut": 7000000, "bytes": 1500000, "soup": 1500000, "tmpl": 2000000}
 	}
 	var hbuf []byte
-	for _, label := range []string{"mut", "bytes", "soup"} {
+	for _, label := range []string{"mut", "bytes", "soup", "tmpl"} {
 		if shard < 0 {
 			break // the dedicated stress worker
 		}
@@ -486,7 +519,7 @@ func c04Worker(args []string) int {
 
 func checkC04(c *Ctx) (string, bool, []string) {
 	r := c.R
-	rule := fmt.Sprintf("grammar-derived texts with 1-4 mutations (range deletion / duplication, splices, hostile fragments: %d kinds incl. NUL, invalid UTF-8, unterminated quotes and comments, stray $ and placeholders), random bytes, token soups; 25%% with parameter maps over every bindable kind and wrong kinds; structured stress (nesting depth 10..10^4 quick / 10^5 thorough for (, f(, -(, subqueries; chains and lists of 10^4/10^5 elements; tokens up to 128 KB quick / 1 MB thorough; unterminated everything). Every input through ParseQuery, ParseStatement, ParseExpr under recover, hook assertions and the step budget %d*(runes+1)+%d; accepted results are printed, walked and rewritten. One child runs 24,000 (400,000) of the mutated texts on 8 goroutines with independent parsers. Children with journals attribute process-fatal events. Non-trivial = non-empty input; distinct by text hash.", len(c04Hostile), c04K, c04C)
+	rule := fmt.Sprintf("grammar-derived texts with 1-4 mutations (range deletion / duplication, splices, hostile fragments: %d kinds incl. NUL, invalid UTF-8, unterminated quotes and comments, stray $ and placeholders), random bytes, token soups, generated statements whose name / literal tokens are placeholders bound to every bindable and unbindable value (malformed UTF-8 and truncated multi-byte units in durations, names, strings and regexes; floats at 2^63 and 2^64; odd json.Number spellings); 25%% with parameter maps over every bindable kind and wrong kinds; structured stress (nesting depth 10..10^4 quick / 10^5 thorough for (, f(, -(, subqueries; chains and lists of 10^4/10^5 elements; tokens up to 128 KB quick / 1 MB thorough; unterminated everything). Every input through ParseQuery, ParseStatement, ParseExpr under recover, hook assertions and the step budget %d*(runes+1)+%d; accepted results are printed, walked and rewritten. One child runs 24,000 (400,000) of the mutated texts on 8 goroutines with independent parsers. Children with journals attribute process-fatal events. Non-trivial = non-empty input; distinct by text hash.", len(c04Hostile), c04K, c04C)
 	assume := []string{"time proportional to input length is observed as scanner steps per input rune (logical time), not wall-clock", "printing is exercised for inputs up to 64 KB (String() is quadratic in nesting depth, which the property does not bound)", "a (non-nil result, non-nil error) pair counts as an error return"}
 	if c.Replay != nil {
 		res := &c04result{Counters: map[string]int64{}}
